@@ -99,11 +99,11 @@ def run(ck: Check) -> None:
     # independence of what else the process imported: the same verification in a fresh interpreter
     env = dict(os.environ)
     env["PYTHONPATH"] = os.path.dirname(os.path.dirname(os.path.dirname(os.path.abspath(__file__))))
-    for pre in ["", "json,decimal,locale"]:
+    for pre in ["", "json,decimal,locale", "rewrap-stdout"]:
         p = subprocess.run([sys.executable, "-m", "cctv.subproc", "fixtures", pre], env=env, stdout=subprocess.PIPE, stderr=subprocess.PIPE, text=True)
         ck.evaluations += 1
         ck.oracle_checks += 1
-        out = p.stdout.strip().split("\n")[-1] if p.stdout.strip() else "no-output " + p.stderr[-200:]
+        out = p.stdout.strip().split("\n")[-1] if p.stdout.strip() else "no-output " + p.stderr[-200:]      # (the verdict line is printed last)
         ck.count("fresh-process:" + out[:40])
         if out != "OK OK":
             ck.violation("verification of a valid envelope fails in a fresh process (depends on what else was imported)",
